@@ -19,7 +19,7 @@ THOROUGH_DEPTH = 40      # thorough tier = this many times the base thorough bud
 ROUTES = ["quaternion.slerp", "orientation.slerp", "QuaternionArray.slerp_nan", "QuaternionArray.remove_jumps", "orientation.q_correct"]
 PAIR_REGIONS = ["generic", "near", "antipodal", "orthogonal", "threshold", "sweep", "identical"]
 REGIONS = {"pair:" + r: 60 for r in PAIR_REGIONS}
-REGIONS.update({"nan:enumerated": 60, "nan:sampled": 30, "flips:enumerated": 60, "flips:sampled": 30, "flips:canonical": 20})
+REGIONS.update({"nan:enumerated": 60, "nan:sampled": 30, "flips:enumerated": 60, "flips:sampled": 30, "flips:canonical": 20, "flips:special": 20})
 PROBES = [("ahrs.common.quaternion", "slerp"), ("ahrs.common.orientation", "slerp"), ("ahrs.common.quaternion", "QuaternionArray.slerp_nan"),
           ("ahrs.common.quaternion", "QuaternionArray.remove_jumps"), ("ahrs.common.orientation", "q_correct"),
           ("ahrs.utils.core", "get_nan_intervals")]
@@ -36,8 +36,8 @@ DEFAULT_THRESHOLD = 0.9995
 ULP = 5e-16
 
 
-def traj(rng, n, step):
-    q = [gens.unit(rng)]
+def traj(rng, n, step, start=None):
+    q = [gens.unit(rng) if start is None else np.array(start, float)]
     for _ in range(n - 1):
         w = rng.standard_normal(3) * step
         q.append(rq.qnormalize(rq.qmul(q[-1], rq.qexp_pure(w / 2))))
@@ -118,6 +118,16 @@ def generate(rng, tier, shard, nshards):
         if fl[0] < 0:
             T, fl = -T, fl       # (keep the first row as delivered)
         yield Case("flips", "flips:canonical", T=T, flips=fl)
+    # recordings that start at (or rest in) a special attitude - identity, exact half / quarter / third turns about the axes and the body diagonals
+    # (components exactly 0, exactly equal, all +-1/2), a tiny angle, an angle next to pi: a sensor at rest there, or turning slowly away from it
+    for i in range(gens.budget(60, tier, nshards)):
+        N = int(rng.integers(3, 24))
+        reg_ = gens.UQ_REGIONS[i % len(gens.UQ_REGIONS)] if i % 3 else "octahedral"
+        T = traj(rng, N, 0.0 if i % 2 == 0 else gens.logu(rng, 1e-6, 0.3), start=gens.unit_quat(rng, reg_))
+        fl = np.where(rng.random(N) < rng.uniform(0.1, 0.6), -1.0, 1.0)
+        if not (fl < 0).any():
+            fl[int(rng.integers(1, N))] = -1.0
+        yield Case("flips", "flips:special", T=T, flips=fl)
     for i in range(gens.budget(80, tier, nshards)):
         N = int(rng.integers(9, 61))
         yield Case("flips", "flips:sampled", T=traj(rng, N, gens.logu(rng, 1e-3, 0.3)), flips=np.where(rng.random(N) < rng.uniform(0.05, 0.6), -1.0, 1.0))
